@@ -627,3 +627,35 @@ Lemma breakpoint_all (l : list (Q * Q)) (th : Q) :
 Proof.
   split; [exact (lookup_some l th)|]. split; [exact (lookup_none l th)|]. exact (lookup_total0 l th).
 Qed.
+
+(* ------------------------------------------------------------------ season and weekday class as written in the file *)
+Lemma file_total_season_class raw : file_total raw = true ->
+  exists L TS, build_all raw = Ok L /\ build raw = Ok TS /\
+  forall t : Z, exists s0 p,
+    filter (fun s => applies s (t_month t) (t_day t) (t_weekday t)) L = [s0] /\
+    get_tariff TS t = Ok p /\
+    latest_breakpoint_rate (s_tariffs s0) (target_hour t) p /\
+    get_demand_charge TS t = Ok (s_demand s0).
+Proof.
+  intro Hft. destruct (file_total_all_instants _ Hft) as (TS & Hb & Hall).
+  unfold build in Hb. destruct (build_all raw) as [L|e] eqn:EL; simpl in Hb; [|discriminate].
+  injection Hb as <-. exists L, (finalize L). split; [reflexivity|]. split; [unfold build; now rewrite EL|].
+  intro t. destruct (Hall t) as (s & p & Hs & Hp & Hl & Hd).
+  destruct (instant_cell t) as (Hm & Hday & _).
+  assert (Hd31 : (1 <= t_day t <= 31)%Z) by (pose proof (max_days_in_month_le_31 (t_month t)); lia).
+  pose proof (wraparound L _ _ (t_weekday t) Hm Hd31) as Hperm. rewrite Hs in Hperm. simpl in Hperm.
+  apply Permutation_length_1_inv in Hperm.
+  destruct (filter (fun s1 => applies s1 (t_month t) (t_day t) (t_weekday t)) L) as [|s0 [|s1 r]] eqn:EF;
+    simpl in Hperm; try discriminate.
+  injection Hperm as Hid Hmask Htar Hdem.
+  exists s0, p. split; [reflexivity|]. split; [assumption|]. rewrite Htar, Hdem. auto.
+Qed.
+
+Lemma bundled_season_class name raw : In (name, raw) bundled ->
+  exists L TS, build_all raw = Ok L /\ build raw = Ok TS /\
+  forall t : Z, exists s0 p,
+    filter (fun s => applies s (t_month t) (t_day t) (t_weekday t)) L = [s0] /\
+    get_tariff TS t = Ok p /\
+    latest_breakpoint_rate (s_tariffs s0) (target_hour t) p /\
+    get_demand_charge TS t = Ok (s_demand s0).
+Proof. intro Hin. apply file_total_season_class. eapply bundled_file_total; eauto. Qed.
